@@ -20,7 +20,7 @@ CONFIG = dict(
              "not by a theorem."),
     rule=("oracle c09 (implementation only, adversarial): every input is decoded and re-encoded by the real library in "
           "fresh single-goroutine `harness costprobe` subprocesses (collector off, GOMEMLIMIT, address-space rlimit, "
-          "20 s watchdog); measured: TotalAlloc delta of decode and of decode+re-encode, reflective deep size (union of "
+          "5..20 s watchdog); measured: TotalAlloc delta of decode and of decode+re-encode, reflective deep size (union of "
           "address intervals), option nesting depth, decoded name bytes, user CPU of the decode. Inputs 0..65507 bytes "
           "for dhcpv4.FromBytes, dhcpv6.FromBytes, rfc1035label.FromBytes and dhcpv6.ParseOption of every list-valued "
           "option: compression-pointer fans (maximal 253-byte name + 2-byte pointers; prefixed, forward, suffix "
